@@ -5,10 +5,14 @@
 
 package xfer
 
+// what a pipe that is handed out again may still carry: nothing (every field of the
+// pipe is listed here - a field added later has to be reset as well)
+//@ spec fn emptyPipe(x *XferPipe) bool = len(x.filters) == 0
+//@ covers emptyPipe xfer.XferPipe @C20
 //@ func (*XferPipe).Reset
 //@   property C20
-//@   modifies x.filters
-//@   ensures[empty] len(x.filters) == 0
+//@   modifies fields(x)
+//@   ensures[empty] emptyPipe(x)
 
 //@ func NewXferPipe
 //@   property C20
@@ -75,3 +79,15 @@ package xfer
 //@   ghostset x.#inheritedFrom = src
 //@   ensures[appended] len(x.filters) == old(len(x.filters)) + old(len(src.filters))
 //@   loop 0: invariant[count] $idx >= -1 && $idx + 1 <= old(len(src.filters)) && len(x.filters) == old(len(x.filters)) + $idx + 1
+
+// ---- C12: the receiver learns the pipe from the frame itself ---------------------------
+// the id list written into a frame names exactly the filters the payload is packed
+// with, position by position, at the moment it is asked for (filterID(f) = f.ID())
+//@ spec fn filterID(f iface) int
+//@ func (*XferPipe).IDs
+//@   property C12
+//@   requires?[pipe-exists] x != nil
+//@   modifies nothing
+//@   ensures[one-id-per-filter] len(result) == len(x.filters)
+//@   ensures[ids-name-the-current-filters] forall i int :: {result[i]} 0 <= i && i < len(x.filters) ==> result[i] == filterID(x.filters[i])
+//@   loop 0: invariant[ids-so-far] $idx >= -1 && $idx < len(x.filters) && len(ids) == len(x.filters) && (forall j int :: {ids[j]} 0 <= j && j <= $idx ==> ids[j] == filterID(x.filters[j]))
